@@ -10,9 +10,9 @@
   A port table (`rtosc::Ports`) is a `List PortT`; a `const Port*` result is the
   *index path* of the port (row in the root table, row in that port's sub-table, …).
 
-  `rtosc_match_path` interprets `{`, `*` and `#` in the pattern; those branches
-  belong to C05.  Here they give the explicit result `unsupported` (never a guess),
-  and the C18 generators use literal names only.
+  `rtosc_match_path` interprets `{`, `*` and `#` in the pattern.  `#N` (enumerated
+  ports, `rtosc_match_number`) is modelled; `{` and `*` belong to C05: here they give the
+  explicit result `unsupported` (never a guess), and the C18 generators do not use them.
 -/
 import RtoscModel.Path.Collapse
 namespace Rtosc.Path
@@ -39,26 +39,51 @@ def hd : Bytes → UInt8
 
 inductive MatchRes where
   | null                                   -- returned NULL
-  | unsupported                            -- pattern uses `{`, `*` or `#` (C05)
+  | unsupported                            -- pattern uses `{` or `*` (C05), or a number ≥ 2^31
   | ok (pat : Bytes) (pathEnd : Bytes)     -- returned `pattern`, `*path_end`
 deriving Repr, DecidableEq
 
-/-- `rtosc_match_path(pattern, msg, &path_end)` for literal patterns. -/
-def matchPath : Bytes → Bytes → MatchRes
-  | [], msg =>
+/-- `isdigit` (for bytes below 128; port names and addresses use 1..126) -/
+def isDigit (c : UInt8) : Bool := 48 ≤ c ∧ c ≤ 57
+
+/-- `atoi` on a string that starts with a digit: value of the leading run of digits -/
+def atoiAux : Nat → Bytes → Nat
+  | acc, [] => acc
+  | acc, c :: r => if isDigit c then atoiAux (acc * 10 + (c.toNat - 48)) r else acc
+
+def atoi (s : Bytes) : Nat := atoiAux 0 s
+
+/-- `rtosc_match_path(pattern, msg, &path_end)` for patterns built from literal characters and
+    `#N` (src/dispatch.c:72-109 with `rtosc_match_number`, :13-30).  `skip = true`: the
+    pattern cursor stands inside the digits behind a `#` whose number has been compared
+    already (`while(isdigit(**pattern))++*pattern;`); `msg` is already behind its digits.
+    A number of 2^31 or more overflows `atoi` (undefined): `unsupported`, as for `{` and `*`
+    (C05's subject). -/
+def matchPathM : Bool → Bytes → Bytes → MatchRes
+  | _, [], msg =>
     -- *pattern == 0: only the verbatim branch can apply
     if hd msg = 0 then .ok [] msg else .null
-  | pc :: pr, msg =>
-    if pc = COLON ∧ hd msg = 0 then .ok (pc :: pr) msg
+  | skip, pc :: pr, msg =>
+    if skip = true ∧ isDigit pc = true then matchPathM true pr msg
+    else if pc = COLON ∧ hd msg = 0 then .ok (pc :: pr) msg
+    else if pc = COLON then .null          -- the pattern's path ended, the message's did not
     else if pc = 123 then .unsupported              -- '{'
     else if pc = 42 then .unsupported               -- '*'
     else if pc = SLASH ∧ hd msg = SLASH then
       let mr := msg.drop 1
-      if hd pr = 0 ∨ hd pr = COLON then .ok pr mr else matchPath pr mr
-    else if pc = 35 then .unsupported               -- '#'
+      if hd pr = 0 ∨ hd pr = COLON then .ok pr mr else matchPathM false pr mr
+    else if pc = 35 then                            -- '#': rtosc_match_number
+      if isDigit (hd pr) = true ∧ isDigit (hd msg) = true then
+        if atoi pr < 2147483648 ∧ atoi msg < 2147483648 then
+          if atoi msg < atoi pr then matchPathM true pr (msg.dropWhile isDigit) else .null
+        else .unsupported
+      else .null
     else if pc = hd msg then
-      if hd msg ≠ 0 then matchPath pr (msg.drop 1) else .ok (pc :: pr) msg
+      if hd msg ≠ 0 then matchPathM false pr (msg.drop 1) else .ok (pc :: pr) msg
     else .null
+
+/-- `rtosc_match_path(pattern, msg, &path_end)` -/
+abbrev matchPath (pattern msg : Bytes) : MatchRes := matchPathM false pattern msg
 
 /-- result of a lookup -/
 inductive Look where
